@@ -15,13 +15,19 @@ from ..engine import Violation, Ctx
 RULE = ("past dense-time formulas (predicates, Boolean, unbounded and bounded once/historically, since; depth<=3), 1-2 variables, "
         "signals of 2..7 samples starting at 0 with a common end; all chunkings at the distinct time stamps up to 64 per case, "
         "else 12 random ones + the two extremes. distinct by (spec, signals, chunking); non-trivial when the covered step "
-        "function is not constant +-inf and at least two updates return samples.")
+        "function is not constant +-inf and at least two updates return samples. Stream on-c/shifted: bounded once / historically / "
+        "since and pastified bounded always / eventually (lower bound 0 in three of four) on signals whose stamps are 2^30 + k/8 "
+        "(epoch-sized, every number an exact double), fed in one update, one stamp per update and three more chunkings: chunked run "
+        "= run fed in one update, and = the dense offline monitor on the same signals where F37 leaves it a reference.")
 EXPLANATION = ("theorems: causality of past formulas on rhoD; on the mirror of the online operation classes (Rtamt/Dense/AlgOn.lean) "
                "C05_online_mirror_partial (every chunking: the concatenated output is rhoD where it is defined), "
                "C05_online_total_partial, C05_chunkings_agree_partial. Correspondence: every chunking of the real online monitor vs "
                "the mirror (every returned list) and vs rhoD on the covered interval; modular = inlined under the chunkings.")
 ASSUMPTIONS = ["signals start at 0 (F37 is a finding of C04); no region of C05 is excluded by a known finding (F21 = F32, F30, F44, F48 "
-               "were repaired)"]
+               "were repaired)",
+               "stream on-c/shifted (signals starting at 2^30) is judged on the implementation alone: chunking-independence everywhere it "
+               "explores, the offline monitor as reference only when no bounded past operator has a positive lower bound (F37); it leaves "
+               "out specifications in which the operand streams of an operation start at different instants (SHIFTED_ALIGNED_ONLY)"]
 
 
 TRUSTED_EXTRA = ["the mirror of the dense online operation classes (lean/Rtamt/Dense/AlgOn.lean) is hand-written: it is tied to rtamt/semantics/stl/dense_time/online/*.py and rtamt/semantics/arithmetic/dense_time/online/*.py by comparing every list every update() returns, not by a translator; the interpreter's name-keyed operator dictionary is a state tree in the mirror"]
@@ -726,7 +732,7 @@ def run(ctx):
     if not ctx.violations:
         pastified_stream(ctx, ctx.subrng("on-c/pastified"), ctx.budget(60, 500))
     if not ctx.violations:
-        shifted_stream(ctx, ctx.subrng("on-c/shifted"), ctx.budget(120, 900))
+        shifted_stream(ctx, ctx.subrng("on-c/shifted"), ctx.budget(300, 2000))
 
 
 def search(ctx):
